@@ -62,6 +62,33 @@ def property_failures_on_impl(cov, vdw):
     return fails, r
 
 
+def vector_and_order_failures(cov, vdw, cases):
+    """(a) resolved radii of whole structures (mixed elements) against the documented tables,
+       (b) every evaluation order of the presets within one interpreter."""
+    r = C.impl_run("c19_impl", {"vectors": [{"id": c["id"], "numbers": c["numbers"], "presets": PRESETS} for c in cases],
+                                "orders": {"zs": list(range(1, 104)), "presets": PRESETS}})
+    fails = []
+    for row in r["vectors"]:
+        nums = [c for c in cases if c["id"] == row["id"]][0]["numbers"]
+        for p in PRESETS:
+            got = row[p]
+            want = [model_value(cov, vdw, p, z) for z in nums]
+            w = [None if x is NAN else float(x) for x in want]
+            g = got if isinstance(got, str) else [None if x is None else float.fromhex(x) for x in got]
+            if g != w:
+                fails.append({"kind": "vector", "preset": p, "numbers": nums, "got": g, "want": w})
+    for row in r["orders"]:
+        p = row["preset"]
+        for z, got in zip(range(1, 104), row["values"]):
+            want = model_value(cov, vdw, p, z)
+            w = None if want is NAN else float(want)
+            g = None if got is None else (got if got.startswith("ERR") else float.fromhex(got))
+            if g != w:
+                fails.append({"kind": "order", "order": row["order"], "preset": p, "z": z, "got": g, "want": w})
+                break
+    return fails, len(r["vectors"]) * 3 + len(r["orders"])
+
+
 def gen_structures(ctx, n, with_sbc):
     rng = ctx.rng
     nan_z = [61, 84, 85, 86, 87, 88, 100, 101, 102, 103]
@@ -139,6 +166,9 @@ def run(ctx):
                 if r["dim_preset"] is not None:
                     nontriv += 1
     ctx.add_cases(len(cases) * 3, min(nontriv, len(cases) * 3), [dict(cases[0], positions="(%d atoms)" % len(cases[0]["numbers"]))])
+    vfails, nv = vector_and_order_failures(cov, vdw, cases)
+    ctx.add_cases(nv, nv, [{"vector_case": cases[0]["numbers"]}])
+    ctx.coverage["vector_and_order_failures"] = vfails[:10]
     ctx.coverage["rule"] = ("exhaustive: get_radii(preset, Z) for Z=0..118 x {covalent,vdw,vdw_covalent} compared bit-exactly with the "
                             "decimal literals of the reference tables (non-trivial: the 309 pairs with Z in 1..103); plus random "
                             "structures (1-10 atoms, elements with and without vdW radius, random pbc) comparing "
@@ -159,12 +189,19 @@ def run(ctx):
                        "broken_obligation": broken}, found_input=True, tag="getradii-%s-%s" % (f["preset"], f["z"]))
         break  # one replay is enough; the rest are listed in the evidence
     ctx.coverage["table_failures"] = fails[:40]
+    for f in vfails[:1]:
+        if f["kind"] == "vector":
+            ctx.violation({"kind": "property-fails-on-implementation", "call": "matid.geometry.get_radii(%r, %r)" % (f["preset"], f["numbers"]),
+                           "got": f["got"], "documented": f["want"], "broken_obligation": broken}, found_input=True)
+        else:
+            ctx.violation({"kind": "property-fails-on-implementation", "history": "presets evaluated in the order %r in one interpreter; then get_radii(%r, [%d])" % (f["order"], f["preset"], f["z"]),
+                           "got": f["got"], "documented": f["want"], "broken_obligation": broken}, found_input=True)
     for f in cons_fail[:1]:
         case = [c for c in cases if c["id"] == f["case"]][0]
         ctx.violation({"kind": "preset-vs-array-differs", "case": case, "detail": f, "broken_obligation": broken},
                       found_input=True)
     ctx.coverage["consumer_failures"] = cons_fail[:10]
-    if broken and not fails and not cons_fail:
+    if broken and not fails and not cons_fail and not vfails:
         ctx.violation({"kind": "proof-obligation-broken", "broken": broken,
                        "searched": "exhaustive Z=1..103 x presets and %d structures on the implementation: no failing input" % len(cases)},
                       found_input=False)
